@@ -117,10 +117,10 @@ def kvSet (k : String) (v : Y) : KVs → KVs
   | [] => [(k, v)]
   | (k', v') :: r => if k' = k then (k', v) :: r else (k', v') :: kvSet k v r
 
-/-- `del d[k]` (no-op when absent) -/
+/-- `del d[k]` (no-op when absent; a dictionary holds a key at most once, so every occurrence goes) -/
 def kvErase (k : String) : KVs → KVs
   | [] => []
-  | (k', v') :: r => if k' = k then r else (k', v') :: kvErase k r
+  | (k', v') :: r => if k' = k then kvErase k r else (k', v') :: kvErase k r
 
 def kvKeys (m : KVs) : List String := m.map (·.1)
 
